@@ -29,6 +29,11 @@ CHECKS = {
     text="For generated libraries and every corpus configuration: a function-scoped option or format field set on library / block / class vs on each contained function (siblings outside the container left alone), inline +attributes vs attrs/fattrs, --option/--language vs YAML fields (bool, int and string values, both directions), declarations vs the same inside an empty block, and create_wrapper vs the command line. Held = both variants succeed and write byte-identical sources.",
     note="Trusted: the curated list of function-scoped options/fields (vf/checks/c14.py). json/log dumps excluded (they record where an option was written). Class containers with member variables and F_this are outside the relation (class-generated helpers have no declaration to attach the setting to).",
     design="DESIGN.md §2 C14"),
+ "C12": dict(
+    technique="splicer monitor (every block emitted: name, source, lines) + block extractor over emitted files, on real runs supplying user bodies through the three routes, deliberate precedence conflicts, and a round trip feeding generated files back as splicer files",
+    text="For corpus configurations and generated libraries, random subsets of the splicer names of a plain run get generated user bodies (plausible statements, random printable text, blank lines, own indentation, trailing blanks, lines ending in + - &, embedded tabs) through splicer files (command line and YAML splicer list), splicer_code and declaration-level splicers and their combinations; oracle: each supplied block equals its body line by line modulo leading/trailing blanks, unsupplied blocks keep the plain run's body, text outside markers never appears, the declaration-level body wins a deliberate conflict, and every block survives feeding the generated files back.",
+    note="Trusted: block extractor regexes; domain: lines not starting in column one with # @ ^ + - 0 and not containing 'splicer begin/end'. Two known findings (duplicate splicer names) are listed in known_findings.json.",
+    design="DESIGN.md §2 C12"),
 }
 
 NOT_APPLICABLE = []
